@@ -123,6 +123,51 @@ func c15R1(c *Ctx) {
 			}
 		})
 		if !okc {
+			// comparison form: WaitForCompletion is `tag == "!wait-optional"`, stored only on paths on which the tag was
+			// found to be one of the two optional tags (`if tag != soft && tag != wait { return error }`)
+			eachInstr(fn, func(r instrRef) {
+				st, ok := r.I.(*ssa.Store)
+				if !ok {
+					return
+				}
+				fa, ok := st.Addr.(*ssa.FieldAddr)
+				if !ok || fieldAddrVar(fa) != wf {
+					return
+				}
+				b, ok := st.Val.(*ssa.BinOp)
+				if !ok || b.Op != token.EQL {
+					return
+				}
+				isTag := func(v ssa.Value) bool {
+					call, ok := v.(*ssa.Call)
+					return ok && call.Common().IsInvoke() && call.Common().Method.Name() == "Tag"
+				}
+				if sv, isC := constString(b.Y); !isC || sv != "!wait-optional" || !isTag(b.X) {
+					return
+				}
+				tagEdge := func(ifi *ssa.If) int {
+					cb, ok := ifi.Cond.(*ssa.BinOp)
+					if !ok || !isTag(cb.X) {
+						return -1
+					}
+					sv, isC := constString(cb.Y)
+					if !isC || (sv != "!soft-optional" && sv != "!wait-optional") {
+						return -1
+					}
+					switch cb.Op {
+					case token.EQL:
+						return 0
+					case token.NEQ:
+						return 1
+					}
+					return -1
+				}
+				if c.onlyViaEdges(fn, st, tagEdge) {
+					okc = true
+				}
+			})
+		}
+		if !okc {
 			// table form: WaitForCompletion is `table[data.Tag()]` of a package-level map[string]bool with constant entries,
 			// and a tag that is not in the table is an error
 			if got, ok := c.optionalFlagTable(fn, wf); ok {
@@ -350,7 +395,7 @@ func c15R2(c *Ctx) {
 		// the chosen dependency is guarded by == "or"
 		var orTest bool
 		var stripOK, discOK bool
-		eachInstr(fn, func(r instrRef) {
+		c.eachInstrLogical(fn, func(r instrRef) {
 			switch x := r.I.(type) {
 			case *ssa.If:
 				if b, ok := x.Cond.(*ssa.BinOp); ok && b.Op == token.EQL {
